@@ -471,13 +471,13 @@ def part_from_matchfile(
     # compute necessary divs based on the types of notes in the
     # match snotes (only integers)
     divs_arg = [
-        max(int((beat_type_map(note.OnsetInBeats) / 4)), 1)
+        max(int((beat_type_map_from_beats(note.OnsetInBeats) / 4)), 1)
         * note.Offset.denominator
         * (note.Offset.tuple_div or 1)
         for note in snotes
     ]
     divs_arg += [
-        max(int((beat_type_map(note.OnsetInBeats) / 4)), 1)
+        max(int((beat_type_map_from_beats(note.OnsetInBeats) / 4)), 1)
         * note.Duration.denominator
         * (note.Duration.tuple_div or 1)
         for note in snotes
@@ -486,14 +486,17 @@ def part_from_matchfile(
     onset_in_beats = np.array([note.OnsetInBeats for note in snotes])
     unique_onsets, inv_idxs = np.unique(onset_in_beats, return_inverse=True)
 
-    iois_in_beats = np.diff(unique_onsets)
-    beat_to_quarter = 4 / beat_type_map(onset_in_beats)
+    # beats -> quarters, piecewise linear over the time signature segments
+    ts_x = np.array([t for t, _, _ in ts], dtype=float)
+    ts_bt = np.array([tsg.denominator for _, _, tsg in ts], dtype=float)
+    ts_xq = np.cumsum(np.r_[ts_x[0] * 4 / ts_bt[0], 4 * np.diff(ts_x) / ts_bt[:-1]])
 
-    iois_in_quarters_offset = np.r_[
-        beat_to_quarter[0] * onset_in_beats[0],
-        (4 / beat_type_map(unique_onsets[:-1])) * iois_in_beats,
-    ]
-    onset_in_quarters = np.cumsum(iois_in_quarters_offset)
+    def beats_to_quarters(b):
+        b = np.asarray(b, dtype=float)
+        idx = np.clip(np.searchsorted(ts_x, b, side="right") - 1, 0, len(ts_x) - 1)
+        return ts_xq[idx] + (b - ts_x[idx]) * 4 / ts_bt[idx]
+
+    onset_in_quarters = beats_to_quarters(unique_onsets)
     iois_in_quarters = np.diff(onset_in_quarters)
 
     # ___ these divs are relative to quarters;
@@ -504,7 +507,7 @@ def part_from_matchfile(
     part.set_quarter_duration(0, divs)
     bars = np.unique([n.Measure for n in snotes])
     t = min_time
-    t = t * 4 / beat_type_map(min_time)
+    t = float(beats_to_quarters(min_time))
     offset = t
     bar_times = {}
 
